@@ -2,6 +2,7 @@ package core
 
 import (
 	"fmt"
+	"math"
 	"go/constant"
 	"go/token"
 	"go/types"
@@ -637,6 +638,7 @@ type astate struct {
 	serial int
 	facts  map[string][2]uint64
 	sfacts map[string][2]int64 // ranges of signed sources
+	excl   map[string][]int64  // values a signed source is known not to have (copy on write)
 	// a sub-run of if-conversion ends when the frame at depth stopDepth reaches stopAt
 	stopAt    *ssa.BasicBlock
 	stopDepth int
@@ -646,7 +648,7 @@ type astate struct {
 }
 
 func (s *astate) clone() *astate {
-	n := &astate{mem: s.mem.clone(), steps: s.steps, serial: s.serial, facts: map[string][2]uint64{}, sfacts: map[string][2]int64{}, stopAt: s.stopAt, stopDepth: s.stopDepth, stopRet: s.stopRet, nils: s.nils}
+	n := &astate{mem: s.mem.clone(), steps: s.steps, serial: s.serial, facts: map[string][2]uint64{}, sfacts: map[string][2]int64{}, excl: s.excl, stopAt: s.stopAt, stopDepth: s.stopDepth, stopRet: s.stopRet, nils: s.nils}
 	for k, v := range s.facts {
 		n.facts[k] = v
 	}
@@ -694,6 +696,9 @@ type Exec struct {
 	// MaxRecursion is how many activations of one function may be on the abstract stack
 	// beyond the first (0: a recursive call stays opaque).
 	MaxRecursion int
+	// ForkLen decides, by the name of the argument, whether a math/bits.Len* call is split into
+	// one state per possible result (default: when there are at most 13 results).
+	ForkLen func(argName string) bool
 	// Merge turns a two-sided branch on an unknown single-bit condition whose sides rejoin
 	// without calls the rule watches into data flow: every value that differs at the join
 	// becomes cond ? a : b (if-conversion). Without it such a branch forks the state.
@@ -1058,22 +1063,14 @@ func (ex *Exec) refine(t, f *astate, fr *aframe, cond ssa.Value) {
 					shape = false
 				}
 			}
-			if shape && n < 64 {
-				st := t
+			if shape && n < 63 {
+				zero, nonzero := t, f
 				if op == token.NEQ {
-					st = f
+					zero, nonzero = f, t
 				}
-				cur, ok := st.facts[src]
-				if !ok {
-					cur = [2]uint64{0, ^uint64(0)}
-					if w < 64 {
-						cur[1] = uint64(1)<<uint(w) - 1
-					}
-				}
-				if hi := uint64(1)<<uint(n) - 1; hi < cur[1] {
-					cur[1] = hi
-				}
-				st.facts[src] = cur
+				whole := SourceVec(src, w)
+				zero.narrow(whole, false, 0, int64(1)<<uint(n)-1)
+				nonzero.narrow(whole, false, int64(1)<<uint(n), math.MaxInt64)
 				return
 			}
 		}
@@ -1111,6 +1108,17 @@ func (ex *Exec) refine(t, f *astate, fr *aframe, cond ssa.Value) {
 		full = ^uint64(0)
 	}
 	apply := func(st *astate, lo, hi uint64) {
+		if lo <= math.MaxInt64 {
+			h := int64(math.MaxInt64)
+			if hi <= math.MaxInt64 {
+				h = int64(hi)
+			}
+			if sf, has := st.sfacts[src]; !has || sf[0] >= 0 {
+				// keep the signed and the unsigned view of the source (and of what it is derived from) in step
+				st.narrow(SourceVec(src, w), false, int64(lo), h)
+				return
+			}
+		}
 		cur, ok := st.facts[src]
 		if !ok {
 			cur = [2]uint64{0, full}
